@@ -45,7 +45,8 @@ let rec int_of_nat = function Datatypes.O -> 0 | Datatypes.S n -> 1 + int_of_nat
 
 let () =
   register "C20" (fun i o -> match i, o with
-    | [ctxk; tmo; _procs; _n; resp; _silent; _eof; _trig; _pos; _mode; _jit], [tr; hang; leak] ->
+    | [ctxk; tmo; _procs; _n; resp; _silent; _eof; _trig; _pos; _mode; _jit], (tr :: hang :: leak :: dlrest) ->
+      let dl_left = (match dlrest with [d] -> d <> "00" | _ -> false) in
       let c = cfg_of ctxk tmo resp in
       let evs = List.map label_of (split_list tr) in
       let has_ret = List.exists (function LRet _ -> true | _ -> false) evs in
@@ -60,6 +61,8 @@ let () =
            else Diff "scenario hung although nothing ended (harness scenario without a trigger)"
          end
          else if leak = "1" then Viol "a goroutine started by Dial is still alive 3 s after Dial returned"
+         else if dl_left && List.exists (function LRet ENil -> true | _ -> false) evs then
+           Viol "nil error but a read or write deadline was left set on the conn"
          else if not has_ret then Diff "no return event in the trace"
          else if not (accepts c evs) then
            Diff (Printf.sprintf "trace is not a trace of the Dial LTS (first %d events are)" (int_of_nat (accepted_prefix c evs)))
